@@ -37,6 +37,8 @@ func (c *Ctx) workerOf(fi *FuncInfo) (*ast.FuncLit, *ast.RangeStmt) {
 // ------------------------------------------------------------------------------------ C08
 
 func checkC08(c *Ctx) {
+	c.Decides("PATH: Compare re-indexes the reference tree unconditionally before comparing, and leaves the loop over the compared tree's branches early only once the verdict is already false")
+	c.compareRules()
 	// the split look-up these results rest on is orientation/rooting independent (shared with C04)
 	c.Decides("SYM (shared with C04): the hash under which a split is looked up is invariant under exchanging the two sides of the branch, so the result does not depend on where either tree is rooted")
 	c.edgeHashSym()
@@ -718,6 +720,13 @@ func checkC09(c *Ctx) {
 // ------------------------------------------------------------------------------------ C10
 
 func checkC10(c *Ctx) {
+	c.Decides("FRESH: the split index that FBP / TBE fill from a bootstrap tree is created anew for each bootstrap tree")
+	for _, n := range []string{"FBP", "TBE"} {
+		if fi := c.Func("support", "", n); fi != nil {
+			c.freshPerItem("FRESH", fi, map[string]bool{"PutEdgeValue": true, "AddEdgeCount": true}, "NewEdgeIndex", "support equals the fraction of bootstrap trees containing the same split")
+		}
+	}
+	c.Floor("FRESH", 2)
 	// the split look-up these results rest on is orientation/rooting independent (shared with C04)
 	c.Decides("SYM (shared with C04): the hash under which a split is looked up is invariant under exchanging the two sides of the branch, so the result does not depend on where either tree is rooted")
 	c.edgeHashSym()
